@@ -407,6 +407,14 @@ def ev_incidence(case, tmp):
         if dom:
             cls = "single-row-or-column-unreadable" if (n == 1 or m == 1) else "read-raises"
             fails.append((cls, f"{n}x{m} matrix: read_incidence_matrix raised {type(ex).__name__}: {ex}"))
+        elif case.get("text") is not None:
+            # a hand-made file: no source network, so no predicate; but a raise on a file with one data row or one
+            # column is the same defect as the class above and must not be booked as a model disagreement
+            rows = [l.split(cm)[0] if cm else l for l in text.split("\n")]
+            rows = [r for r in rows if r != ""]
+            cols = {len(r.split(case["rdelim"])) for r in rows}
+            if len(rows) == 1 or cols == {1}:
+                fails.append(("~single-row-or-column-unreadable", "hand-made single-row/column file"))
     gen = read_text(p) if case.get("text") is None else None
     return fails, [req], [{"out": "ok", "gen": gen, "read": res}]
 
@@ -704,6 +712,7 @@ def run_cases(ctx, cases, tmp, do_model=True):
     """predicate on every case; correspondence through the driver; returns the disagreements"""
     reqs, wants, owners = [], [], []
     failed = set()
+    maybe = []
     for idx, case in enumerate(cases):
         fails, rq, want = evaluate(case, tmp)
         ctx.evaluations += 1
@@ -713,6 +722,9 @@ def run_cases(ctx, cases, tmp, do_model=True):
         if nontrivial(case):
             ctx.nontrivial.add(jhash(case))
         for cls, detail in fails:
+            if cls.startswith("~"):     # not a predicate failure: "explained by violation <cls> if that one was recorded"
+                maybe.append((idx, SITE[case["fmt"]], cls[1:]))
+                continue
             failed.add(idx)
             site = SITE[case["fmt"]]
             small = case
@@ -731,6 +743,8 @@ def run_cases(ctx, cases, tmp, do_model=True):
         if do_model and rq:
             for q, w in zip(rq, want):
                 reqs.append(q); wants.append(w); owners.append(idx)
+    recorded = {(v["site"], v["failure_class"]) for v in ctx.violations if v["kind"] == "concrete"}
+    failed |= {idx for idx, site, cls in maybe if (site, cls) in recorded}
     dis = []
     if reqs:
         resps = []
